@@ -7,6 +7,18 @@
 //!   area, every triangle inside the polygon.
 //! * `chk_tiling` — whole fills: the Lean slab checker in tiling mode (coverage ≤ 1 everywhere and
 //!   = 1 exactly where the fill rule says "in", outside the tolerance band), plus distinct indices.
+//! * `chk_tilingbuf` — the same whole-fill verdict on what the CALLER finds in his buffers: fills
+//!   through `BuffersBuilder` into `VertexBuffers<Point, u16|u32|i32|usize>` that already hold
+//!   geometry (N dummy vertices, N from 0 to beyond 2^16 incl. just below the index type's maximum,
+//!   and/or earlier fills appended to the same buffers, some of them refused half-way), through
+//!   `BuffersBuilder::new` or `simple_builder`, with / without vertex offset and inverted winding,
+//!   one builder object per fill or one for all. On `Ok` every new index, read back as the buffer
+//!   stores it, must name a vertex of THIS fill, the earlier contents must be untouched, and the
+//!   triangles resolved through the buffer go to the slab checker.
+//! * `bufidx` — tie of that index path: the fill's request script (recorded against a counting
+//!   builder) run through the Lean model of `BuffersBuilder` (Model/Tess/GeomBuilder.lean,
+//!   Skeleton.lean) with the same index type, prior sizes, offset, winding: result, final sizes and
+//!   every stored new index compared exactly.
 
 use lyon_path::math::{point, Point};
 use lyon_tessellation::FillTessellator;
@@ -181,6 +193,152 @@ fn tiling_case(ctx: &mut Ctx, monotone: bool) {
     });
 }
 
+/// Whole fill into caller-owned buffers with prior contents, verdict on the triangles as the
+/// caller resolves them through the buffers.
+fn tiling_buf_case(ctx: &mut Ctx, monotone: bool) {
+    ctx.case_check("chk_tilingbuf", |rng| {
+        let poly = if monotone {
+            let n_mid = rng.range(3, 14) as usize;
+            let lattice = rng.chance(1, 4);
+            let seq = gen_monotone(rng, n_mid, None, lattice);
+            Poly { subs: vec![(monotone_outline(&seq), true)], kind: "monotone" }
+        } else {
+            gen_poly(rng, 24)
+        };
+        let cfg = FillCfg::gen(rng);
+        let spec = BufSpec::gen(rng, true);
+        let hist = if rng.chance(1, 3) { History::gen(rng) } else { History { steps: vec![] } };
+        let mut args = Out::new();
+        cfg.put(&mut args);
+        spec.put(&mut args);
+        let edges = poly.edges();
+        put_edges(&mut args, &edges);
+        let tag = format!("tilingbuf {} {} {}", spec.tag(), poly.kind, hist.tag());
+        (args, tag, move || {
+            let run = fill_into_buffers(&spec, &|| hist.tessellator(), &poly, &cfg);
+            let (before, after) = (&run.before, &run.after);
+            let mut o = Out::new();
+            let mut orc = Oracle::new();
+            o.u(before.nv() as u64).u(before.ni() as u64);
+            match &run.result {
+                Err(lyon_tessellation::TessellationError::GeometryBuilder(lyon_tessellation::GeometryBuilderError::TooManyVertices)) => {
+                    // refusing a fill that does not fit the index type, and restoring the buffers, is
+                    // the geometry-builder protocol (property C04), not tiling
+                    o.t("err").t("TooManyVertices");
+                    orc.skip("too-many-vertices-for-index-type");
+                    return (CaseOut { imp: o, orcl: orc.verdict }, None);
+                }
+                Err(e) => {
+                    o.t("err").t(&format!("{:?}", e).replace(' ', "_"));
+                    orc.skip("tessellation-error");
+                    return (CaseOut { imp: o, orcl: orc.verdict }, None);
+                }
+                Ok(()) => {}
+            }
+            o.t("ok").u(after.nv() as u64).u(after.ni() as u64);
+            let (n0, i0) = (before.nv(), before.ni());
+            let ctxs = || format!("{} prior vertices={} indices={} after {}/{} offset={}", after.ty(), n0, i0, after.nv(), after.ni(), spec.bc.offset);
+            // what was in the buffers is still there, bit for bit
+            orc.check(after.has_prefix(&**before), "fillbuf/earlier-contents-untouched", "generic", || ctxs());
+            if orc.failed() {
+                return (CaseOut { imp: o, orcl: orc.verdict }, None);
+            }
+            orc.check((after.ni() - i0) % 3 == 0, "fillbuf/index-count", "generic", || ctxs());
+            let off = spec.bc.offset as i128;
+            let (lo, hi) = (n0 as i128 + off, after.nv() as i128 + off);
+            // a vertex offset the index type cannot hold on top of an otherwise representable fill is
+            // the caller's choice, not the tessellator's output: observation
+            let offset_unrepresentable = off > 0 && (after.nv() as i128 - 1) <= after.max_index() as i128 && hi - 1 > after.max_index() as i128;
+            if offset_unrepresentable {
+                orc.skip("vertex-offset-beyond-index-range");
+                return (CaseOut { imp: o, orcl: orc.verdict }, None);
+            }
+            let mut tris: Vec<[Point; 3]> = Vec::new();
+            for t in (i0..after.ni()).step_by(3) {
+                if t + 2 >= after.ni() {
+                    break;
+                }
+                let r = [after.index(t), after.index(t + 1), after.index(t + 2)];
+                orc.check(r.iter().all(|&i| lo <= i && i < hi), "fillbuf/index-own-vertex", "generic", || {
+                    format!("{} stored triangle {:?} names a vertex outside this fill's [{}, {})", ctxs(), r, lo, hi)
+                });
+                orc.check(r[0] != r[1] && r[1] != r[2] && r[0] != r[2], "fillbuf/distinct-ids", "generic", || format!("{} {:?}", ctxs(), r));
+                if orc.failed() {
+                    return (CaseOut { imp: o, orcl: orc.verdict }, None);
+                }
+                let v = after.vertices();
+                tris.push([v[(r[0] - off) as usize], v[(r[1] - off) as usize], v[(r[2] - off) as usize]]);
+            }
+            let mut c = Out::new();
+            c.u(if cfg.rule == lyon_tessellation::FillRule::EvenOdd { 0 } else { 1 });
+            c.u(1);
+            c.f(cfg.tolerance + poly.scale() * 1.0e-5);
+            put_edges(&mut c, &edges);
+            c.u(tris.len() as u64);
+            for t in &tris {
+                c.p(t[0]).p(t[1]).p(t[2]);
+            }
+            (CaseOut { imp: o, orcl: orc.verdict }, Some(c))
+        })
+    });
+}
+
+/// Tie of the index path: request script of the fill -> Lean model of `BuffersBuilder`.
+fn bufidx_case(ctx: &mut Ctx) {
+    ctx.case("bufidx", |rng| {
+        let poly = gen_poly(rng, 16);
+        let cfg = FillCfg::gen(rng);
+        let spec = BufSpec::gen(rng, false);
+        // request script, recorded against a builder that never refuses
+        let rec = vh::guarded(|| {
+            let mut r = ScriptRecorder::default();
+            let mut tess = FillTessellator::new();
+            let res = run_fill_dyn(&mut tess, &poly, &cfg, &mut r);
+            (r, res.is_ok())
+        });
+        let mut args = Out::new();
+        args.t(spec.ty).u(spec.n0 as u64).u(spec.idx0.len() as u64).u(spec.bc.offset as u64).b(spec.bc.invert);
+        let usable = match &rec {
+            Some((r, ok)) => {
+                args.b(*ok).u(r.script.len() as u64);
+                for s in &r.script {
+                    match s {
+                        None => args.t("v"),
+                        Some((a, b, c)) => args.t("t").u(*a as u64).u(*b as u64).u(*c as u64),
+                    };
+                }
+                true
+            }
+            None => {
+                args.t("recording-panicked");
+                false
+            }
+        };
+        let tag = format!("bufidx {}{}", spec.tag(), if usable { "" } else { " trivial" });
+        (args, tag, move || {
+            let mut o = Out::new();
+            let mut orc = Oracle::new();
+            if !usable {
+                o.t("recording-panicked");
+                orc.skip("recording-panicked");
+                return CaseOut { imp: o, orcl: orc.verdict };
+            }
+            let run = fill_into_buffers(&spec, &|| FillTessellator::new(), &poly, &cfg);
+            let (before, after) = (&run.before, &run.after);
+            match &run.result {
+                Ok(()) => o.t("ok"),
+                Err(lyon_tessellation::TessellationError::GeometryBuilder(e)) => o.t(&format!("gb:{:?}", e)),
+                Err(_) => o.t("err"),
+            };
+            o.u(after.nv() as u64).u(after.ni() as u64).b(after.has_prefix(&**before));
+            for i in before.ni().min(after.ni())..after.ni() {
+                o.i(after.index(i) as i64);
+            }
+            CaseOut { imp: o, orcl: orc.verdict }
+        })
+    });
+}
+
 fn main() {
     let mut ctx = Ctx::from_args("C02");
     // bounded-exhaustive: every left/right interleaving of up to K middle vertices, both tessellators
@@ -199,6 +357,15 @@ fn main() {
     let n = ctx.n(2400, 30000);
     for i in 0..n {
         tiling_case(&mut ctx, i % 3 == 0);
+    }
+    // whole fills into caller-owned buffers with prior contents, every index type of BuffersBuilder
+    let n = ctx.n(900, 20000);
+    for i in 0..n {
+        tiling_buf_case(&mut ctx, i % 4 == 0);
+    }
+    let n = ctx.n(400, 8000);
+    for _ in 0..n {
+        bufidx_case(&mut ctx);
     }
     ctx.finish();
 }
